@@ -101,7 +101,7 @@ PROPS = {
     "C17": P(["parse", "lists"], tb=PARSE_TB, assumptions=[], partial="Rust stack depth / allocation are outside the model: nesting to 400 (1000 thorough) and 4000-char chains are executed under catch_unwind"),
     "C18": P(["lists"], tb=PARSE_TB, assumptions=[], partial="'correctly rounded' relies on Rust's str::parse (trusted); compared by bits with the generating data"),
     "C19": P(["disp2d", "disp3d"], tb=DISP_TB + PARSE_TB + ["T3 translator translate/wiring.py (regex extraction of parameter lists, contexts, closures, config initialisation)"],
-             assumptions=DISP_AS, partial="panic-freedom is decided on explored inputs (inherits C15/C17/C18)"),
+             assumptions=DISP_AS, partial="C19Total: for ALL strings and configurations the 2-D entry points never panic (displayCav2d_never_panics) and their result is exactly one of Ok / parse error / list error / display error, in source order of the stages (displayCav2d_stages, _ok_iff); the 3-D entry point never panics at the API level, its outcomes are classified (displayCav3d_stages), a triangulation error is exactly the sweep's error on the parsed polygons, over XQ a triangulator panic could only be a RefCell borrow conflict, and none at all when the parsed polygon set has no duplicate/touching vertices or spikes (GeneralV); for the remaining degenerate polygon texts panic-freedom is decided on explored inputs"),
     "C20": P([], tb=["T3 translator translate/wiring.py", "pyo3 0.17 argument extraction / IntoPy / panic trapping: assumed, observed by py/c20_probe.py on CPython with the cdylib built from the current tree"],
              assumptions=["CPython 3.11 available as python3"], partial="pyo3 is not modelled: the theorems are about the declarations, the behaviour is observed", extra=[pyprobe]),
     "C06": P(["parse", "eval"], tb=PARSE_TB, assumptions=["user-registered names are ASCII words not EQUAL (case-insensitively) to nan or inf (CtxOK'); names that merely start with such a word are covered since repair bcc2eb4"],
@@ -241,6 +241,10 @@ LEVEL_TEXT["C08"].update({
     "text": LEVEL_TEXT["C08"]["text"] + " Added (C08Accuracy): end-to-end accuracy and additivity on the exact class (polynomial f via the AD operations, affine c, |det| of constant sign per triangle), for any number of bisections, against the exact iterated integral over each triangle of the model's sweep; total = k*area(P) within 1.5e-16 relative for simple quadrilaterals and convex polygons with constant integrand.",
     "note": "C08General: totals over the whole even-odd region of every valid set (constant integrand: k*area; polynomial: Green boundary moment). Outside the exact class explored.",
     "technique": "Lean 4 / Mathlib end-to-end accuracy theorems (quadrature + AD Jacobian + sweep acceptance) + bit-exact correspondence + closed-form oracle"})
+LEVEL_TEXT["C19"].update({
+    "text": LEVEL_TEXT["C19"]["text"] + " Added (C19Total): totality and outcome classification of the string-level API model for all strings - the 2-D entry points never panic; the 3-D entry point never panics at the API level and its triangulation errors are exactly the sweep's; no panic at all for polygon texts in GeneralV.",
+    "note": "Panic-freedom for degenerate polygon texts (duplicate/touching vertices, spikes) is explored.",
+    "technique": "Lean 4 totality theorems over the API model + decide on translator-generated wiring + differential check string API / closure API / model"})
 LEVEL_TEXT["C01"].update({
     "text": LEVEL_TEXT["C01"]["text"] + " Added (C01Success): for degree <= 19 and tol above twice the defect bound the routine succeeds on the first panel.",
     "note": "Trusts: Lean kernel (GMP arithmetic in decide +kernel), Mathlib, translator T1, harness. Rounding, the success clause for degree 20..31 and the transcendental class are explored only."})
